@@ -26,6 +26,13 @@ ASSUMES = ["noise acts after two-qubit gates only, with unit duration, through t
 HEADER = "From Coq Require Import List. Import ListNotations.\nFrom Yaqs Require Import Model.NoiseAttrib."
 
 
+def regenerate(ctx):
+    """coq/Gen/SmallGen.v from the current source (incl. the selection test of create_local_noise_model; fail closed)"""
+    from gen import translate_small
+
+    translate_small.regenerate()
+
+
 def gen_gates(rng, n, m):
     instrs = []
     for i in range(m):
